@@ -289,6 +289,13 @@ func (f *Footer) doLoadSegments(options *StoreOptions, fref *FileRef,
 			// We persist kvs before buf, so KvsOffset < BufOffset.
 			begOffset := int64(sloc.KvsOffset)
 			endOffset := int64(sloc.BufOffset + sloc.BufBytes)
+			if sloc.BufBytes <= 0 {
+				// No buf bytes were written, so the file need not reach
+				// up to BufOffset (which a compaction places beyond the
+				// space it reserved for kvs entries that were expected
+				// but, for example, all compacted away).
+				endOffset = int64(sloc.KvsOffset + sloc.KvsBytes)
+			}
 
 			nbytes := int(endOffset - begOffset)
 
@@ -298,6 +305,9 @@ func (f *Footer) doLoadSegments(options *StoreOptions, fref *FileRef,
 			begOffsetActual := pageOffset(begOffset, int64(AllocationGranularity))
 			begOffsetDelta := int(begOffset - begOffsetActual)
 			nbytesActual := nbytes + begOffsetDelta
+			if nbytesActual <= 0 {
+				nbytesActual = 1 // An empty segment, mmap() needs a length.
+			}
 
 			// check whether the actual file fits within the footer offsets
 			fstats, err := osFile.Stat()
